@@ -534,6 +534,13 @@ def predictors(ctx, f):
         ctx.need(len(prods) == 1, R, "QLPC inner prediction loop not found")
         pr = prods[0]
         ops = [pr.left, pr.right] if isinstance(pr, ast.BinOp) else list(pr.args[:2])
+        def _unrev(o):
+            # x[a:b][::-1] (most recent sample first) spans the same samples as x[a:b]
+            if (isinstance(o, ast.Subscript) and isinstance(o.slice, ast.Slice) and o.slice.lower is None and o.slice.upper is None
+                    and isinstance(o.value, ast.Subscript) and isinstance(o.value.slice, ast.Slice)):
+                return o.value
+            return o
+        ops = [_unrev(o) for o in ops]
         hist = [o for o in ops if isinstance(o, ast.Subscript) and astq.base_name(o) == "cbuffer" and isinstance(o.slice, ast.Slice)]
         ctx.need(len(hist) == 1 and hist[0].slice.lower is not None and hist[0].slice.upper is not None, R, "history slice of the vectorised QLPC prediction not recognised")
         evv = SymEval(prog, f)
